@@ -12,6 +12,7 @@ NOT_APPLICABLE = {
     "C11": "the per-item accounting exists only inside tokio::spawn-ed coroutines of stream_executor.rs; the inline-spawn Kani probe did not terminate (FuturesUnordered drop glue), timeout/concurrency-limit are contracts of tokio::time::timeout / futures-util; not encodable within reach (DESIGN.md C11)",
     "C12": "same code location as C11 plus a futures async Mutex latch and an old->new executor hand-over that need several live Tokio tasks; neither engine can provide that (DESIGN.md C12)",
 }
+NOT_APPLICABLE["C17"] = ("the interleavings that matter put a sender inside its fan-out loop while StreamsManagerBase::sync_vacant_and_used_streams rewrites used_streams[]; that function is Vec / concat / sort_unstable / iterator code: outside the MIR subset of the schedule-exploring engine, and in Kani ONE call of it already costs 10-60 s (a symbolic origin: > 15 min, > 14 GB), so that nesting a complete send at a solver-chosen yield point of it (or vice versa) did not finish within 25 min; no bounded solver query over the real code decides this property within reach on this machine. The sequential consequences of a broken live-list rebuild (stale ids, missing sentinel, stale events for a recycled id) are decided under C10 (DESIGN.md 8.6)")
 PENDING_REASON = "check not built yet in this round (see DESIGN.md section 4 for the plan); not claimed"
 
 def main():
